@@ -57,7 +57,7 @@ def handleFmt (c : Case) : Verdict :=
   let fs := c.get "fmt"
   let fmt : Option (List Nat) := if fs == "N" then none else some (parseUnits 8 fs)
   let tbl := Driver.Fmt.parseFloatTable (c.get "fr")
-  let args := Driver.Fmt.parseArgs tbl (c.get "args")
+  let args := Driver.Fmt.parseArgs tbl (c.get "args") m      -- wide-text arguments are converted under the build's default validation
   let nontrivial := match fmt with
     | some f => f.any (fun b => b == 123)
     | none => true
